@@ -42,5 +42,5 @@ func TestMC(t *testing.T) {
 		// the empty range [max,max), which excludes nobody.
 		seqs = append(seqs, poolSeq("pool-last-byte", []rangeSpec{poolRanges[0], poolRanges[9], lastByteRange}, []int{2}, map[string]int{"quick": 2, "thorough": 2}))
 	}
-	mc.Main(t, nil, seqs)
+	mc.Main(t, concLockScenarios(), seqs)
 }
